@@ -96,7 +96,7 @@ def check_case(ctx, case):
 def run_shard(ctx):
     acc = ctx.acc
     rng = ctx.rng("layout")
-    n = 4000 if ctx.quick() else 100000
+    n = 8000 if ctx.quick() else 200000
     for j in range(n):
         if ctx.out_of_time():
             acc.notes.append("time budget reached after %d docs" % j)
